@@ -408,6 +408,10 @@ def rule_mask_names(check, model, rules):
                         g[('has', proto.kind_at(b[1]))] = pol
                     elif t == model.partial_term():
                         g['partial'] = pol
+                    elif t[0] == 'SL' and t[1][0] == 'V' and t[1][1] in [c[0] for c in carried.values()]:
+                        # "are there parameters before / after the named one": a fact about the input that can go either way
+                        # whatever the other guards say; the table does not depend on it
+                        g[('slice_nonempty', 'tail' if t[3] == NONE else 'head')] = pol
                     else:
                         unknown.append((atom, pol))
                 else:
